@@ -27,8 +27,11 @@ SPEC = os.path.join(VERIF, "spec")
 HARNESS = os.path.join(VERIF, "harness")
 BUILD = os.path.join(VERIF, ".build")
 WORK = os.path.join(VERIF, ".work")
-EVID = os.path.join(VERIF, "evidence")
-REPLAYS = os.path.join(VERIF, "replays")
+# evidence/ and replays/ describe /repo; a run against another tree (VERIF_REPO=<scratch worktree with a seeded change>)
+# writes its evidence and replay files under .work/ so that it never overwrites what is claimed about /repo
+_ALT = None if os.path.abspath(REPO) == "/repo" else os.path.join(VERIF, ".work", "alt-" + os.path.basename(os.path.abspath(REPO)))
+EVID = os.path.join(_ALT, "evidence") if _ALT else os.path.join(VERIF, "evidence")
+REPLAYS = os.path.join(_ALT, "replays") if _ALT else os.path.join(VERIF, "replays")
 NCPU = os.cpu_count() or 4
 
 GOENV = dict(os.environ, GOFLAGS="-mod=mod", GOPROXY="off", GOSUMDB="off",
@@ -484,16 +487,17 @@ def classify(prop, diffs, trace_lines):
 # --------------------------------------------------------------------------- evidence / verdict
 
 def write_evidence(pid, tier, seed, t0, coverage, assumptions, violations):
-    os.makedirs(EVID, exist_ok=True)
+    evid = EVID if not pid.startswith("X") else EVID + "_ext"   # extension specifications (DESIGN §10) keep their own directory
+    os.makedirs(evid, exist_ok=True)
     ev = {
         "property_id": pid, "tier": tier, "seed": seed, "level": "model_checking",
         "coverage": coverage, "assumptions": assumptions, "wall_s": round(time.time() - t0, 2),
         "violations": violations,
     }
-    tmp = os.path.join(EVID, pid + ".json.tmp")
+    tmp = os.path.join(evid, pid + ".json.tmp")
     with open(tmp, "w") as f:
         json.dump(ev, f, indent=1, ensure_ascii=False)
-    os.replace(tmp, os.path.join(EVID, pid + ".json"))
+    os.replace(tmp, os.path.join(evid, pid + ".json"))
 
 
 def write_replay(pid, idx, record, items):
